@@ -8,7 +8,7 @@ claims = json.load(open(f'{V}/tools/claims.json'))
 ENV = 'GOWORK=off GOFLAGS=-mod=mod GOPROXY=off GOSUMDB=off GOTOOLCHAIN=local'
 m = {
  "version": 1,
- "setup_cmd": f"cd /verif/engine && {ENV} go build -o ../bin/symgo . && cd /repo && {ENV} go build ./... && {ENV} go vet -vettool=/bin/true ./x/cctp/... >/dev/null 2>&1; true",
+ "setup_cmd": "cd /verif && bin/check --setup",
  "hooks": {
   "guard": "verif",
   "enable": "no hook commits exist: harnesses live in /verif/harness and are supplied to the go tool through build overlays (packages.Config.Overlay for the symbolic engine, go test -overlay for native replay); the tag name is reserved",
